@@ -258,6 +258,14 @@ let () =
                      i_user = c.c_user; i_tail = c.c_tail } in
           pend.inputs <- (i, (int_of_string mode, ic, bool_of repeat)) :: pend.inputs;
           do_event (ESetInput (z_of_int i, z_of_int (if int_of_string mode = 4 then 2 else int_of_string mode), ic))
+        | ["FT"; i] ->
+          (* the file ends in the middle of its last record: that record cannot be read and contributes nothing *)
+          let i = int_of_string i in
+          let rec drop_first = function
+            | [] -> []
+            | (j, EFrame _) :: r when j = i -> r
+            | x :: r -> x :: drop_first r in
+          pend.queued <- drop_first pend.queued
         | "F" :: i :: len :: rest ->
           let data = match rest with [h] -> bytes_of_hex h | _ -> [] in
           pend.queued <- (int_of_string i, EFrame (z_of_int (int_of_string i), { pf_len = z_of_int (int_of_string len); pf_data = data })) :: pend.queued
